@@ -12,7 +12,8 @@ struct Config {
     double p_reuse = 0.7;     // reuse a freed block of the same class (LIFO) instead of fresh memory
     double p_move = 0.5;      // realloc moves even when it could stay
     uint64_t seed = 1;
-    bool yield_points = false; // decision point inside every allocator call (caller-visible slow allocator)
+    bool yield_points = false;
+    bool carve_recycled = false; // place some 513..3500-byte blocks inside pages the code under test freed earlier (sim::take_recycled_page) // decision point inside every allocator call (caller-visible slow allocator)
 };
 
 struct aws_allocator *create(const Config &cfg); // resets all state; one allocator per run
